@@ -81,24 +81,26 @@ Proof.
   simpl in H. destruct (sg_id x =? id); [inversion H; left; auto|right; eapply IH; eauto].
 Qed.
 
-Lemma pick_segs_in : forall l order s, In s (pick_segs l order) -> In s l.
+Lemma regen_seg_ok : forall stored s, seg_ok stored s -> seg_ok stored (regen_seg s).
 Proof.
-  intros l order. induction order as [|id order IH]; intros s H; [destruct H|].
-  simpl in H. destruct (find_seg l id) as [x|] eqn:E; auto.
-  destruct H as [H|H]; auto. subst. eapply find_seg_in; eauto.
+  intros stored s H r Hr. simpl in Hr. apply in_map_iff in Hr. destruct Hr as [r0 [E Hr0]]. subst r.
+  destruct (H r0 Hr0) as [f [Hk Hin]]. exists f. auto.
 Qed.
 
-Lemma reopen_layer_ok : forall stored regen l order,
-  layer_ok stored l -> layer_ok stored (reopen_layer regen l order).
+Lemma pick_segs_ok : forall stored l order, layer_ok stored l -> layer_ok stored (pick_segs l order).
 Proof.
-  intros stored regen l order H.
-  assert (R : layer_ok stored (reorder l order)).
-  { unfold reorder. destruct (Nat.eqb _ _); auto.
-    intros s Hs. apply H. eapply pick_segs_in; eauto. }
-  unfold reopen_layer. destruct regen; auto.
-  intros s Hs. apply in_map_iff in Hs. destruct Hs as [s0 [E Hs0]]. subst s.
-  intros r Hr. simpl in Hr. apply in_map_iff in Hr. destruct Hr as [r0 [E Hr0]]. subst r.
-  destruct (R s0 Hs0 r0 Hr0) as [f [Hk Hin]]. exists f. auto.
+  intros stored l order H. induction order as [|[id g] order IH]; intros s Hs; [destruct Hs|].
+  simpl in Hs. destruct (find_seg l id) as [x|] eqn:E; [|apply IH; exact Hs].
+  destruct Hs as [Hs|Hs]; [|apply IH; exact Hs].
+  pose proof (H x (find_seg_in _ _ _ E)) as Hx.
+  subst s. destruct g; [apply regen_seg_ok|]; exact Hx.
+Qed.
+
+Lemma reopen_layer_ok : forall stored l order,
+  layer_ok stored l -> layer_ok stored (reopen_layer l order).
+Proof.
+  intros stored l order H. unfold reopen_layer.
+  destruct (Nat.eqb _ _); [apply pick_segs_ok|]; exact H.
 Qed.
 
 (* ---------- what a disk lookup can return ---------- *)
@@ -154,13 +156,55 @@ Qed.
 Lemma slice_hit : forall d off len x, slice d off len = Some x -> off + len <= blen x ->
   (off + len <=? blen d) = true /\ x = firstn (N.to_nat len) (skipn (N.to_nat off) d).
 Proof.
-  intros d off len x H Hl. unfold slice in H. destruct (blen d <? off) eqn:E; [discriminate|].
+  intros d off len x H Hl. unfold slice in H.
+  destruct (two63 <=? len); [discriminate|].
+  destruct (blen d <? off) eqn:E; [discriminate|].
   inversion H as [Hx]. clear H. unfold blen in *.
   assert (Lx : List.length x = Nat.min (N.to_nat (N.min len (N.of_nat (List.length d) - off)))
                                        (List.length d - N.to_nat off)).
   { rewrite <- Hx, firstn_length, skipn_length. reflexivity. }
   assert (A : N.min len (N.of_nat (List.length d) - off) = len) by lia.
   rewrite A. split; [lia|reflexivity].
+Qed.
+
+(* a slice never has more than [len] bytes *)
+Lemma slice_len : forall d off len x, slice d off len = Some x -> blen x <= len.
+Proof.
+  intros d off len x H. unfold slice in H.
+  destruct (two63 <=? len); [discriminate|].
+  destruct (blen d <? off); [discriminate|].
+  inversion H as [Hx]. unfold blen. rewrite firstn_length. lia.
+Qed.
+
+Lemma layer_get_slice_len : forall l key off len, blen (layer_get_slice l key off len) <= len.
+Proof.
+  induction l as [|s l IH]; intros key off len; simpl; [unfold blen; simpl; lia|].
+  destruct (seg_get s key) as [d|]; [|apply IH].
+  destruct (slice d off len) as [x|] eqn:S; [|apply IH].
+  destruct (is_empty x); [apply IH|]. eapply slice_len; eauto.
+Qed.
+
+(* audit item 3: every GetChunkSlice with an offset above 0 (and offset + length
+   below 2^63) misses: each tier hands back at most [length] bytes and the result is
+   tested against offset + length *)
+Lemma slice_dead : forall p st md f off len,
+  0 < off -> off + len < two63 -> get_slice_with p st md f off len = [].
+Proof.
+  intros p st md f off len Ho Hs. unfold get_slice_with.
+  assert (W : (two63 <=? off) = false) by (apply N.leb_gt; lia). rewrite W. unfold get_slice_small.
+  assert (G : forall x : bytes, blen x <= len -> ge_int (blen x) (off + len) = false).
+  { intros x Hx. unfold ge_int. apply orb_false_iff. split; [apply N.leb_gt; exact Hs|apply N.leb_gt; lia]. }
+  set (mdd := match md with
+              | Some d => match slice d off len with Some x => x | None => [] end
+              | None => [] end).
+  assert (Hm : blen mdd <= len).
+  { unfold mdd. destruct md as [d|]; [|unfold blen; simpl; lia].
+    destruct (slice d off len) as [x|] eqn:S; [eapply slice_len; eauto|unfold blen; simpl; lia]. }
+  rewrite (G mdd Hm), andb_false_r.
+  destruct (fid_key f) as [k|]; [|reflexivity].
+  rewrite (G _ (layer_get_slice_len (l0 st) k off len)), andb_false_r.
+  rewrite (G _ (layer_get_slice_len (l1 st) k off len)), andb_false_r.
+  rewrite (G _ (layer_get_slice_len (l2 st) k off len)). reflexivity.
 Qed.
 
 (* ---------- key-uniqueness ---------- *)
@@ -181,7 +225,16 @@ Proof.
   rewrite Ka, Kb, N.eqb_refl in U. simpl in U. apply negb_false_iff in U. apply fileid_eqb_eq. exact U.
 Qed.
 
-(* ---------- answers are transparent ---------- *)
+(* ---------- every answer is explained by a store with the same needle key ---------- *)
+Lemma allowed_intro : forall rel exp stored o f g d x,
+  op_fid o = Some f -> In (g, d) stored -> rel g f = true -> exp o d = Some x ->
+  allowed_by rel exp stored o x = true.
+Proof.
+  intros rel exp stored o f g d x Hf Hin Hr He. unfold allowed_by. rewrite Hf.
+  apply existsb_exists. exists (g, d). split; auto.
+  simpl. rewrite Hr, He, bytes_eqb_refl. reflexivity.
+Qed.
+
 Lemma transparent_hit : forall stored o f d x,
   op_fid o = Some f -> In (f, d) stored -> expected o d = Some x -> transparent_answer stored o x = true.
 Proof.
@@ -193,110 +246,130 @@ Qed.
 Lemma transparent_empty : forall stored o, transparent_answer stored o [] = true.
 Proof. reflexivity. Qed.
 
-Section Answers.
-  Variable p : params.
-  Variable F : list fileid.
-  Hypothesis HF : uniq F.
+Lemma expected_any_get : forall f m d, ge_int (blen d) m = true -> expected_any (Get f m) d = Some d.
+Proof.
+  intros f m d H. unfold expected_any, op_big. destruct (two63 <=? m) eqn:B; [reflexivity|].
+  unfold ge_int in H. rewrite B in H. simpl in H. cbn [expected]. rewrite H. reflexivity.
+Qed.
 
-  Lemma disk_get_transparent : forall stored f k m lay d,
-    (forall g x, In (g, x) stored -> In g F) -> In f F -> fid_key f = Some k ->
-    layer_ok stored lay -> layer_get lay k = d -> (m <=? blen d) = true ->
-    transparent_answer stored (Get f m) d = true.
+Lemma expected_any_slice : forall f off len d x,
+  slice d off len = Some x -> ge_int (blen x) (off + len) = true ->
+  expected_any (GetSlice f off len) d = Some x.
+Proof.
+  intros f off len d x S H. unfold expected_any, op_big. destruct (two63 <=? off + len) eqn:B; [exact S|].
+  unfold ge_int in H. rewrite B in H. simpl in H. apply N.leb_le in H.
+  destruct (slice_hit _ _ _ _ S H) as [A E]. cbn [expected]. rewrite A, <- E. reflexivity.
+Qed.
+
+Lemma related_refl : forall f, related f f = true.
+Proof. intros. unfold related. rewrite fileid_eqb_refl. reflexivity. Qed.
+
+Lemma related_key : forall g f k, fid_key g = Some k -> fid_key f = Some k -> related g f = true.
+Proof.
+  intros g f k Hg Hf. unfold related, same_key. rewrite Hg, Hf, N.eqb_refl. apply orb_true_r.
+Qed.
+
+Lemma explained_intro : forall stored o r,
+  allowed_by related expected_any stored o r = true -> explained stored o r = true.
+Proof. intros stored o r H. unfold explained. rewrite H, orb_true_r. reflexivity. Qed.
+
+Lemma explained_wild : forall stored o r, op_wild o = true -> explained stored o r = true.
+Proof. intros stored o r H. unfold explained. rewrite H. apply orb_true_r. Qed.
+
+Section Explained.
+  Variable p : params.
+
+  Lemma disk_get_explained : forall stored f k m lay,
+    fid_key f = Some k -> layer_ok stored lay -> ge_int (blen (layer_get lay k)) m = true ->
+    explained stored (Get f m) (layer_get lay k) = true.
   Proof.
-    intros stored f k m lay d HS Hf Hk Hl E Hm.
-    destruct d as [|b d']; [reflexivity|].
+    intros stored f k m lay Hk Hl Hm.
+    destruct (layer_get lay k) as [|b d'] eqn:E; [reflexivity|].
     destruct (layer_get_sound stored lay k (b :: d') Hl E) as [g [Gk Gin]]; [discriminate|].
-    assert (g = f) by (eapply uniq_same; eauto). subst g.
-    eapply transparent_hit; [reflexivity|eassumption|]. cbn [expected]. rewrite Hm. reflexivity.
+    apply explained_intro.
+    eapply allowed_intro; [reflexivity|exact Gin|eapply related_key; eauto|].
+    apply expected_any_get. exact Hm.
   Qed.
 
-  Lemma get_transparent : forall stored st md f m,
-    inv stored st -> (forall g x, In (g, x) stored -> In g F) -> In f F ->
-    In md (mem_choices st f) ->
-    transparent_answer stored (Get f m) (get_with p st md f m) = true.
+  Lemma get_explained : forall stored st md f m,
+    inv stored st -> In md (mem_choices st f) ->
+    explained stored (Get f m) (get_with p st md f m) = true.
   Proof.
-    intros stored st md f m [Hm [H0 [H1 H2]]] HS Hf Hmd. unfold get_with.
-    destruct ((m <=? limit0 p) && (m <=? blen match md with Some d => d | None => [] end)) eqn:C.
+    intros stored st md f m [Hm [H0 [H1 H2]]] Hmd. unfold get_with.
+    destruct ((m <=? limit0 p) && ge_int (blen match md with Some d => d | None => [] end) m) eqn:C.
     - destruct md as [d|]; [|reflexivity].
       unfold mem_choices in Hmd. destruct (mem_find (mem st) f) as [d'|] eqn:E.
       + destruct Hmd as [Hmd|[Hmd|[]]]; [discriminate|]. inversion Hmd; subst d'.
         apply andb_true_iff in C. destruct C as [_ C].
-        eapply transparent_hit; [reflexivity|apply Hm; apply mem_find_some; eauto|].
-        cbn [expected]. rewrite C. reflexivity.
+        apply explained_intro.
+        eapply allowed_intro; [reflexivity|apply Hm; apply mem_find_some; eauto|apply related_refl|].
+        apply expected_any_get. exact C.
       + destruct Hmd as [Hmd|[]]. discriminate.
     - destruct (fid_key f) as [k|] eqn:K; [|reflexivity].
-      destruct ((m <=? limit0 p) && (m <=? blen (layer_get (l0 st) k))) eqn:C0.
-      { apply andb_true_iff in C0. destruct C0 as [_ C0].
-        exact (disk_get_transparent stored f k m (l0 st) _ HS Hf K H0 eq_refl C0). }
-      destruct ((m <=? limit1 p) && (m <=? blen (layer_get (l1 st) k))) eqn:C1.
-      { apply andb_true_iff in C1. destruct C1 as [_ C1].
-        exact (disk_get_transparent stored f k m (l1 st) _ HS Hf K H1 eq_refl C1). }
-      destruct (m <=? blen (layer_get (l2 st) k)) eqn:C2; [|reflexivity].
-      exact (disk_get_transparent stored f k m (l2 st) _ HS Hf K H2 eq_refl C2).
+      destruct ((m <=? limit0 p) && ge_int (blen (layer_get (l0 st) k)) m) eqn:C0.
+      { apply andb_true_iff in C0. destruct C0 as [_ C0]. apply disk_get_explained; auto. }
+      destruct ((m <=? limit1 p) && ge_int (blen (layer_get (l1 st) k)) m) eqn:C1.
+      { apply andb_true_iff in C1. destruct C1 as [_ C1]. apply disk_get_explained; auto. }
+      destruct (ge_int (blen (layer_get (l2 st) k)) m) eqn:C2; [|reflexivity].
+      apply disk_get_explained; auto.
   Qed.
 
-  Lemma disk_slice_transparent : forall stored f k off len lay x,
-    (forall g y, In (g, y) stored -> In g F) -> In f F -> fid_key f = Some k ->
-    layer_ok stored lay -> layer_get_slice lay k off len = x -> (off + len <=? blen x) = true ->
-    transparent_answer stored (GetSlice f off len) x = true.
+  Lemma disk_slice_explained : forall stored f k off len lay,
+    fid_key f = Some k -> layer_ok stored lay ->
+    ge_int (blen (layer_get_slice lay k off len)) (off + len) = true ->
+    explained stored (GetSlice f off len) (layer_get_slice lay k off len) = true.
   Proof.
-    intros stored f k off len lay x HS Hf Hk Hl E Hm.
-    destruct x as [|b x']; [reflexivity|].
+    intros stored f k off len lay Hk Hl Hm.
+    destruct (layer_get_slice lay k off len) as [|b x'] eqn:E; [reflexivity|].
     destruct (layer_get_slice_sound stored lay k off len (b :: x') Hl E) as [g [d [Gk [Gin Sl]]]]; [discriminate|].
-    assert (g = f) by (eapply uniq_same; eauto). subst g.
-    apply N.leb_le in Hm. destruct (slice_hit _ _ _ _ Sl Hm) as [A B].
-    eapply transparent_hit; [reflexivity|eassumption|]. cbn [expected]. rewrite A, <- B. reflexivity.
+    apply explained_intro.
+    eapply allowed_intro; [reflexivity|exact Gin|eapply related_key; eauto|].
+    apply expected_any_slice; assumption.
   Qed.
 
-  Lemma get_slice_transparent : forall stored st md f off len,
-    inv stored st -> (forall g x, In (g, x) stored -> In g F) -> In f F ->
-    In md (mem_choices st f) ->
-    transparent_answer stored (GetSlice f off len) (get_slice_with p st md f off len) = true.
+  Lemma get_slice_explained : forall stored st md f off len,
+    inv stored st -> In md (mem_choices st f) ->
+    explained stored (GetSlice f off len) (get_slice_with p st md f off len) = true.
   Proof.
-    intros stored st md f off len [Hm [H0 [H1 H2]]] HS Hf Hmd. unfold get_slice_with.
+    intros stored st md f off len [Hm [H0 [H1 H2]]] Hmd. unfold get_slice_with.
+    destruct (two63 <=? off) eqn:W; [apply explained_wild; exact W|]. unfold get_slice_small.
     set (mdd := match md with
                 | Some d => match slice d off len with Some x => x | None => [] end
                 | None => [] end).
-    destruct ((off + len <=? limit0 p) && (off + len <=? blen mdd)) eqn:C.
+    destruct ((off + len <=? limit0 p) && ge_int (blen mdd) (off + len)) eqn:C.
     - destruct md as [d|]; [|reflexivity]. unfold mdd in *.
       destruct (slice d off len) as [x|] eqn:S; [|reflexivity].
       unfold mem_choices in Hmd. destruct (mem_find (mem st) f) as [d'|] eqn:E.
       + destruct Hmd as [Hmd|[Hmd|[]]]; [discriminate|]. inversion Hmd; subst d'.
-        apply andb_true_iff in C. destruct C as [_ C]. apply N.leb_le in C.
-        destruct (slice_hit _ _ _ _ S C) as [A B].
-        eapply transparent_hit; [reflexivity|apply Hm; apply mem_find_some; eauto|].
-        cbn [expected]. rewrite A, <- B. reflexivity.
+        apply andb_true_iff in C. destruct C as [_ C].
+        apply explained_intro.
+        eapply allowed_intro; [reflexivity|apply Hm; apply mem_find_some; eauto|apply related_refl|].
+        apply expected_any_slice; assumption.
       + destruct Hmd as [Hmd|[]]. discriminate.
     - destruct (fid_key f) as [k|] eqn:K; [|reflexivity].
-      destruct ((off + len <=? limit0 p) && (off + len <=? blen (layer_get_slice (l0 st) k off len))) eqn:C0.
-      { apply andb_true_iff in C0. destruct C0 as [_ C0].
-        exact (disk_slice_transparent stored f k off len (l0 st) _ HS Hf K H0 eq_refl C0). }
-      destruct ((off + len <=? limit1 p) && (off + len <=? blen (layer_get_slice (l1 st) k off len))) eqn:C1.
-      { apply andb_true_iff in C1. destruct C1 as [_ C1].
-        exact (disk_slice_transparent stored f k off len (l1 st) _ HS Hf K H1 eq_refl C1). }
-      destruct (off + len <=? blen (layer_get_slice (l2 st) k off len)) eqn:C2; [|reflexivity].
-      exact (disk_slice_transparent stored f k off len (l2 st) _ HS Hf K H2 eq_refl C2).
+      destruct ((off + len <=? limit0 p) && ge_int (blen (layer_get_slice (l0 st) k off len)) (off + len)) eqn:C0.
+      { apply andb_true_iff in C0. destruct C0 as [_ C0]. apply disk_slice_explained; auto. }
+      destruct ((off + len <=? limit1 p) && ge_int (blen (layer_get_slice (l1 st) k off len)) (off + len)) eqn:C1.
+      { apply andb_true_iff in C1. destruct C1 as [_ C1]. apply disk_slice_explained; auto. }
+      destruct (ge_int (blen (layer_get_slice (l2 st) k off len)) (off + len)) eqn:C2; [|reflexivity].
+      apply disk_slice_explained; auto.
   Qed.
 
-  Lemma answers_transparent : forall stored st o,
-    inv stored st -> (forall g x, In (g, x) stored -> In g F) ->
-    (forall f, op_fid o = Some f -> In f F) ->
-    forallb (transparent_answer stored o) (answers p st o) = true.
+  Lemma answers_explained : forall stored st o,
+    inv stored st -> forallb (explained stored o) (answers p st o) = true.
   Proof.
-    intros stored st o Hi HS Ho. apply forallb_forall. intros r Hr.
-    destruct o as [f d|f m|f off len|g a b c]; simpl in Hr; try destruct Hr.
-    - apply in_map_iff in Hr. destruct Hr as [md [E Hmd]]. subst r.
-      apply get_transparent; auto.
-    - apply in_map_iff in Hr. destruct Hr as [md [E Hmd]]. subst r.
-      apply get_slice_transparent; auto.
+    intros stored st o Hi. apply forallb_forall. intros r Hr.
+    destruct o as [f d|f m|f off len|a b c]; simpl in Hr; try destruct Hr.
+    - apply in_map_iff in Hr. destruct Hr as [md [E Hmd]]. subst r. apply get_explained; auto.
+    - apply in_map_iff in Hr. destruct Hr as [md [E Hmd]]. subst r. apply get_slice_explained; auto.
   Qed.
-End Answers.
+End Explained.
 
 (* ---------- the invariant is preserved ---------- *)
 Lemma step_inv : forall p stored st o, inv stored st -> inv (remember stored o) (step p st o).
 Proof.
   intros p stored st o [Hm [H0 [H1 H2]]].
-  destruct o as [f d|f m|f off len|g a b c]; simpl; try (repeat split; assumption).
+  destruct o as [f d|f m|f off len|a b c]; simpl; try (repeat split; assumption).
   - (* Store *)
     assert (I : incl stored ((f, d) :: stored)) by (intros x Hx; right; exact Hx).
     pose proof (layer_ok_mono _ _ _ I H0) as H0'.
@@ -327,23 +400,101 @@ Proof.
   split; [apply (fresh_layer_ok [] 3)|apply (fresh_layer_ok [] 2)].
 Qed.
 
-(* ---------- C31: transparency under unique keys ---------- *)
+(* ---------- C31 without any hypothesis: transparent modulo the needle key ---------- *)
+Lemma run_explained : forall p ops stored st,
+  inv stored st -> all_from explained stored ops (run p st ops) = true.
+Proof.
+  intros p. induction ops as [|o ops IH]; intros stored st Hi; [reflexivity|].
+  simpl. apply andb_true_iff. split.
+  - destruct (is_lookup o); [|reflexivity]. apply answers_explained. exact Hi.
+  - apply IH. apply step_inv. exact Hi.
+Qed.
+
+Theorem explained_full : forall p ops, all_from explained [] ops (run p init_state ops) = true.
+Proof. intros. apply run_explained. exact init_inv. Qed.
+
+(* ---------- from "explained" to "transparent" at a clean lookup ---------- *)
+Lemma key_clash_split : forall g f, key_clash g f = same_key g f && negb (fileid_eqb g f).
+Proof.
+  intros g f. unfold key_clash, same_key. destruct (fid_key g), (fid_key f); reflexivity.
+Qed.
+
+Lemma expected_any_small : forall o d, op_big o = false -> expected_any o d = expected o d.
+Proof. intros o d H. unfold expected_any. rewrite H. reflexivity. Qed.
+
+Lemma explained_clean : forall stored o r,
+  step_clean stored o = true -> explained stored o r = true -> transparent_answer stored o r = true.
+Proof.
+  intros stored o r Hc He. unfold step_clean in Hc. apply andb_true_iff in Hc. destruct Hc as [Ha Hb].
+  apply negb_true_iff in Ha, Hb.
+  assert (Hw : op_wild o = false).
+  { destruct o as [f d|f m|f off len|a b c]; try reflexivity. simpl in Hb |- *.
+    apply N.leb_gt in Hb. apply N.leb_gt. lia. }
+  unfold explained in He. rewrite Hw, orb_false_r in He. unfold transparent_answer.
+  destruct (is_empty r); [reflexivity|]. simpl in He |- *.
+  unfold allowed_by in He. unfold alias_before in Ha.
+  destruct (op_fid o) as [f|]; [|discriminate].
+  apply existsb_exists in He. destruct He as [[g d] [Hin Hx]]. simpl in Hx.
+  apply andb_true_iff in Hx. destruct Hx as [Hr Hx].
+  rewrite expected_any_small in Hx by exact Hb.
+  apply existsb_exists. exists (g, d). split; [exact Hin|]. simpl. rewrite Hx, andb_true_r.
+  destruct (fileid_eqb g f) eqn:E; [reflexivity|].
+  assert (K : key_clash g f = true).
+  { rewrite key_clash_split, E. unfold related in Hr. rewrite E in Hr. simpl in Hr. rewrite Hr. reflexivity. }
+  assert (X : existsb (fun fd => key_clash (fst fd) f) stored = true).
+  { apply existsb_exists. exists (g, d). split; auto. }
+  congruence.
+Qed.
+
+Lemma all_from_impl : forall (P Q : pred),
+  (forall stored o r, P stored o r = true -> Q stored o r = true) ->
+  forall ops stored outs, all_from P stored ops outs = true -> all_from Q stored ops outs = true.
+Proof.
+  intros P Q PQ. induction ops as [|o ops IH]; intros stored outs H; [reflexivity|].
+  destruct outs as [|rs outs]; [discriminate|]. simpl in H |- *.
+  apply andb_true_iff in H. destruct H as [H1 H2]. apply andb_true_iff. split; [|apply IH; exact H2].
+  destruct (is_lookup o); [|reflexivity].
+  rewrite forallb_forall in H1. apply forallb_forall. intros r Hr. apply PQ. apply H1. exact Hr.
+Qed.
+
+Lemma explained_narrow : forall stored o r, explained stored o r = true -> narrow_answer stored o r = true.
+Proof.
+  intros stored o r H. unfold narrow_answer. destruct (step_clean stored o) eqn:C; [|reflexivity].
+  simpl. apply explained_clean; assumption.
+Qed.
+
+(* PARTIAL, per lookup: transparency at every lookup that is not preceded by a store
+   for another file id with the same needle key and whose minimum size is below 2^63 *)
+Theorem transparent_narrow : forall p ops, all_from narrow_answer [] ops (run p init_state ops) = true.
+Proof. intros. eapply all_from_impl; [exact explained_narrow|apply explained_full]. Qed.
+
+(* ---------- C31 under unique keys (history-wide hypothesis) ---------- *)
 Lemma fids_of_cons : forall o ops f, In f (fids_of ops) -> In f (fids_of (o :: ops)).
 Proof. intros o ops f H. simpl. destruct (op_fid o); [right|]; auto. Qed.
 
-Lemma run_transparent : forall p F, uniq F -> forall ops stored st,
-  inv stored st -> (forall g x, In (g, x) stored -> In g F) ->
+Lemma narrow_all_clean : forall F, uniq F -> forall ops stored outs,
+  (forall g x, In (g, x) stored -> In g F) ->
   (forall f, In f (fids_of ops) -> In f F) ->
-  transparent_from stored ops (run p st ops) = true.
+  no_big ops = true ->
+  all_from narrow_answer stored ops outs = true -> all_from transparent_answer stored ops outs = true.
 Proof.
-  intros p F HF. induction ops as [|o ops IH]; intros stored st Hi HS Hops; [reflexivity|].
-  simpl. apply andb_true_iff. split.
+  intros F HF. induction ops as [|o ops IH]; intros stored outs HS Hops Hb H; [reflexivity|].
+  destruct outs as [|rs outs]; [discriminate|]. simpl in H, Hb |- *.
+  apply andb_true_iff in H. destruct H as [H1 H2].
+  apply andb_true_iff in Hb. destruct Hb as [Hb1 Hb2].
+  apply andb_true_iff. split.
   - destruct (is_lookup o); [|reflexivity].
-    eapply answers_transparent; eauto.
-    intros f Hf. apply Hops. simpl. rewrite Hf. left. reflexivity.
-  - apply IH.
-    + apply step_inv. exact Hi.
-    + intros g x Hin. destruct o as [f d|f m|f off len|gg a b c]; simpl in Hin;
+    assert (C : step_clean stored o = true).
+    { unfold step_clean. rewrite Hb1, andb_true_r. apply negb_true_iff. unfold alias_before.
+      destruct (op_fid o) as [f|] eqn:Of; [|reflexivity].
+      destruct (existsb (fun fd => key_clash (fst fd) f) stored) eqn:X; [|reflexivity].
+      apply existsb_exists in X. destruct X as [[g d] [Hin K]]. simpl in K.
+      rewrite (HF g f) in K; [discriminate|eapply HS; eauto|].
+      apply Hops. simpl. rewrite Of. left. reflexivity. }
+    rewrite forallb_forall in H1. apply forallb_forall. intros r Hr. specialize (H1 r Hr).
+    unfold narrow_answer in H1. rewrite C in H1. exact H1.
+  - apply IH; auto.
+    + intros g x Hin. destruct o as [f d|f m|f off len|a b c]; simpl in Hin;
         try (eapply HS; eassumption).
       destruct Hin as [Hin|Hin]; [|eapply HS; eassumption]. inversion Hin; subst.
       apply Hops. simpl. left. reflexivity.
@@ -351,21 +502,16 @@ Proof.
 Qed.
 
 Theorem transparent_partial : forall p ops,
-  keys_unique ops = true -> transparent_from [] ops (run p init_state ops) = true.
+  keys_unique ops = true -> no_big ops = true ->
+  transparent_from [] ops (run p init_state ops) = true.
 Proof.
-  intros p ops H. apply (run_transparent p (fids_of ops) (keys_unique_uniq ops H)).
-  - exact init_inv.
+  intros p ops H Hb. unfold transparent_from.
+  apply (narrow_all_clean (fids_of ops) (keys_unique_uniq ops H)); auto.
   - intros g x [].
-  - auto.
+  - apply transparent_narrow.
 Qed.
 
-(* the same from any reachable state: the statement does not depend on starting empty *)
-Theorem transparent_partial_from : forall p pre ops,
-  keys_unique (pre ++ ops) = true ->
-  transparent_from [] (pre ++ ops) (run p init_state (pre ++ ops)) = true.
-Proof. intros. apply transparent_partial. assumption. Qed.
-
-(* ---------- the full statement and its refutation ---------- *)
+(* ---------- the full statement and its refutations ---------- *)
 Definition transparent_full : Prop := forall p ops,
   transparent_from [] ops (run p init_state ops) = true.
 
@@ -383,6 +529,24 @@ Lemma witness_facts :
   run w_params init_state w_ops = [[]; [[104; 101; 108; 108; 111]]].
 Proof. vm_compute. auto. Qed.
 
+(* finding 1.  NewTieredChunkCache(_, dir, 64, 1): store 5 bytes under "3,01637037d6"
+   (third disk tier), GetChunk(same id, 2^63) returns them although 5 < 2^63 *)
+Definition w1_params : params := {| unit_size := 1; disk_units := 64 |}.
+Definition w1_ops : list op :=
+  [Store (Fid 3 1 1668298710) [104; 101; 108; 108; 111];
+   Get (Fid 3 1 1668298710) two63].
+
+Definition transparent_unique_keys : Prop := forall p ops,
+  keys_unique ops = true -> transparent_from [] ops (run p init_state ops) = true.
+
+Theorem unique_keys_refuted : ~ transparent_unique_keys.
+Proof. intro H. specialize (H w1_params w1_ops eq_refl). vm_compute in H. discriminate. Qed.
+
+Lemma witness1_facts :
+  keys_unique w1_ops = true /\ no_big w1_ops = false /\
+  run w1_params init_state w1_ops = [[]; [[104; 101; 108; 108; 111]]].
+Proof. vm_compute. auto. Qed.
+
 (* ---------- admitted answers ---------- *)
 Lemma admits_in : forall rs impl, admits rs impl = true -> In impl rs.
 Proof.
@@ -397,11 +561,11 @@ Proof.
   intros. simpl. unfold mem_choices. destruct (mem_find (mem st) f); left; reflexivity.
 Qed.
 
-Lemma admitted_transparent : forall ops stored outs impl,
-  transparent_from stored ops outs = true -> admitted_all ops outs impl = true ->
-  impl_transparent stored ops impl = true.
+Lemma admitted_from : forall (P : pred) ops stored outs impl,
+  all_from P stored ops outs = true -> admitted_all ops outs impl = true ->
+  impl_from P stored ops impl = true.
 Proof.
-  induction ops as [|o ops IH]; intros stored outs impl T A; [reflexivity|].
+  intros P. induction ops as [|o ops IH]; intros stored outs impl T A; [reflexivity|].
   destruct outs as [|rs outs]; [discriminate|]. destruct impl as [|r impl]; [discriminate|].
   simpl in T, A |- *.
   apply andb_true_iff in T. destruct T as [T1 T2].
@@ -412,10 +576,169 @@ Proof.
 Qed.
 
 (* every answer the correspondence relation accepts is what the property allows,
-   under unique keys *)
+   under unique keys and small minimum sizes *)
 Theorem admitted_hit_is_spec : forall p ops impl,
-  keys_unique ops = true -> admitted_all ops (run p init_state ops) impl = true ->
+  keys_unique ops = true -> no_big ops = true ->
+  admitted_all ops (run p init_state ops) impl = true ->
   impl_transparent [] ops impl = true.
 Proof.
-  intros p ops impl HU HA. eapply admitted_transparent; [apply transparent_partial; exact HU|exact HA].
+  intros p ops impl HU HB HA. unfold impl_transparent.
+  eapply admitted_from; [apply transparent_partial; assumption|exact HA].
 Qed.
+
+(* without any hypothesis: every accepted answer is explained by a store with the
+   same needle key, and is transparent at every clean lookup *)
+Theorem admitted_explained : forall p ops impl,
+  admitted_all ops (run p init_state ops) impl = true ->
+  impl_from explained [] ops impl = true /\ impl_from narrow_answer [] ops impl = true.
+Proof.
+  intros p ops impl HA. split; eapply admitted_from; eauto using explained_full, transparent_narrow.
+Qed.
+
+(* ---------- the trigger of the check is exact ---------- *)
+(* an explained answer that is not transparent is an instance of finding 0 or 1 at
+   that very lookup *)
+Lemma explained_classes : forall stored o r,
+  explained stored o r = true -> transparent_answer stored o r = false ->
+  alias_answer stored o r = true \/ big_answer stored o r = true \/ wild_answer stored o r = true.
+Proof.
+  intros stored o r He Ht. destruct (op_wild o) eqn:W; [right; right; exact W|].
+  destruct (op_big o) eqn:B.
+  - right. left. unfold big_answer. rewrite B, W, He. reflexivity.
+  - left. unfold alias_answer. rewrite B. simpl.
+    unfold explained in He. rewrite W, orb_false_r in He. unfold transparent_answer in Ht.
+    destruct (is_empty r); [discriminate|]. simpl in He, Ht.
+    unfold allowed_by in *. destruct (op_fid o) as [f|]; [|discriminate].
+    apply existsb_exists in He. destruct He as [[g d] [Hin Hx]]. simpl in Hx.
+    apply andb_true_iff in Hx. destruct Hx as [Hr Hx].
+    rewrite expected_any_small in Hx by exact B.
+    apply existsb_exists. exists (g, d). split; [exact Hin|]. simpl. rewrite Hx, andb_true_r.
+    destruct (fileid_eqb g f) eqn:E.
+    + exfalso. assert (X : existsb (fun fd => fileid_eqb (fst fd) f &&
+                 match expected o (snd fd) with Some x => bytes_eqb x r | None => false end) stored = true).
+      { apply existsb_exists. exists (g, d). split; auto. simpl. rewrite E, Hx. reflexivity. }
+      congruence.
+    + rewrite key_clash_split, E. unfold related in Hr. rewrite E in Hr. simpl in Hr. rewrite Hr. reflexivity.
+Qed.
+
+(* so: when the model admits the implementation's answers, [classify] never
+   gives up — a property failure that the model reproduces is always labelled *)
+Lemma classify_total : forall ops stored impl acc,
+  impl_from explained stored ops impl = true -> classify stored ops impl acc <> None.
+Proof.
+  induction ops as [|o ops IH]; intros stored impl acc H; [simpl; discriminate|].
+  destruct impl as [|r impl]; [simpl; discriminate|].
+  simpl in H |- *. apply andb_true_iff in H. destruct H as [H1 H2].
+  destruct (is_lookup o) eqn:L; simpl; [|apply IH; exact H2].
+  destruct (transparent_answer stored o r) eqn:T; simpl; [apply IH; exact H2|].
+  destruct (explained_classes stored o r H1 T) as [A|[B|W]].
+  - rewrite A. apply IH. exact H2.
+  - rewrite B. destruct (alias_answer stored o r); apply IH; exact H2.
+  - rewrite W. destruct (alias_answer stored o r); [|destruct (big_answer stored o r)]; apply IH; exact H2.
+Qed.
+
+Lemma classify_acc_some : forall ops stored impl k t,
+  classify stored ops impl (Some k) = Some t -> t <> None.
+Proof.
+  induction ops as [|o ops IH]; intros stored impl k t C.
+  - simpl in C. inversion C. discriminate.
+  - destruct impl as [|r impl]; [simpl in C; inversion C; discriminate|].
+    simpl in C.
+    destruct (is_lookup o && negb (transparent_answer stored o r)); [|eapply IH; eauto].
+    destruct (alias_answer stored o r); [eapply IH; eauto|].
+    destruct (big_answer stored o r); [eapply IH; eauto|].
+    destruct (wild_answer stored o r); [eapply IH; eauto|discriminate].
+Qed.
+
+(* and a failing run always gets a number *)
+Lemma classify_fail : forall ops stored impl acc t,
+  classify stored ops impl acc = Some t -> impl_from transparent_answer stored ops impl = false ->
+  Nat.leb (List.length ops) (List.length impl) = true -> t <> None.
+Proof.
+  induction ops as [|o ops IH]; intros stored impl acc t C F Hl; [discriminate|].
+  destruct impl as [|r impl]; [discriminate|].
+  simpl in C, F, Hl.
+  destruct (is_lookup o) eqn:L; simpl in C, F.
+  - destruct (transparent_answer stored o r) eqn:T; simpl in C, F.
+    + eapply IH; eauto.
+    + clear F. destruct (alias_answer stored o r).
+      * destruct acc as [k|].
+        -- eapply classify_acc_some; eauto.
+        -- eapply classify_acc_some; eauto.
+      * destruct (big_answer stored o r).
+        -- destruct acc as [k|]; eapply classify_acc_some; eauto.
+        -- destruct (wild_answer stored o r); [|discriminate].
+           destruct acc as [k|]; eapply classify_acc_some; eauto.
+  - eapply IH; eauto.
+Qed.
+
+Theorem trigger_total : forall p ops impl,
+  admitted_all ops (run p init_state ops) impl = true ->
+  Nat.leb (List.length ops) (List.length impl) = true ->
+  impl_transparent [] ops impl = false -> trigger ops impl <> None.
+Proof.
+  intros p ops impl HA Hl HF. unfold trigger.
+  destruct (admitted_explained p ops impl HA) as [HE _].
+  destruct (classify [] ops impl None) as [t|] eqn:C.
+  - eapply classify_fail; eauto.
+  - exfalso. eapply classify_total; eauto.
+Qed.
+
+Lemma narrow_spec : forall stored o r,
+  narrow_answer stored o r = true -> alias_before stored o = false -> op_big o = false ->
+  transparent_answer stored o r = true.
+Proof.
+  intros stored o r H A B. unfold narrow_answer, step_clean in H. rewrite A, B in H. exact H.
+Qed.
+
+(* one content per file id: nothing stale can be returned *)
+Lemma single_content : forall stored o f d r,
+  op_fid o = Some f -> (forall x, In (f, x) stored -> x = d) ->
+  transparent_answer stored o r = true -> r = [] \/ expected o d = Some r.
+Proof.
+  intros stored o f d r Hf Hs H. unfold transparent_answer in H. rewrite Hf in H.
+  destruct r as [|b r']; [left; reflexivity|right]. simpl in H.
+  apply existsb_exists in H. destruct H as [[g x] [Hin Hx]]. simpl in Hx.
+  apply andb_true_iff in Hx. destruct Hx as [E Hx]. apply fileid_eqb_eq in E. subst g.
+  rewrite (Hs x Hin) in Hx. destruct (expected o d) as [y|]; [|discriminate].
+  apply bytes_eqb_eq in Hx. congruence.
+Qed.
+
+Lemma example_facts :
+  let p := {| unit_size := 16; disk_units := 32 |} in
+  let a := Fid 3 1 7 in let b := Fid 3 2 8 in let c := Fid 4 3 9 in
+  let ops := [Store a [1; 2; 3; 4; 5; 6; 7; 8; 9]; Store b [10; 11; 12; 13; 14; 15; 16; 17; 18; 19];
+              Store c [20; 21; 22];
+              Restart [(0, true); (1, true)] [(0, true); (1, true); (2, true)] [(0, true); (1, true)];
+              Get a 1; Get b 4; Get c 1; GetSlice b 0 3] in
+  keys_unique ops = true /\ no_big ops = true /\ hist_ok ops = true /\
+  run p init_state ops = [[]; []; []; []; [[]]; [[10; 11; 12; 13; 14; 15; 16; 17; 18; 19]]; [[]]; [[10; 11; 12]]].
+Proof. vm_compute. repeat split; reflexivity. Qed.
+
+Lemma example_mixed_facts :
+  let p := {| unit_size := 16; disk_units := 32 |} in
+  let a := Fid 3 1 7 in let b := Fid 3 2 8 in
+  let ops := [Store a [1; 2; 3]; Store b [4; 5; 6];
+              Restart [(1, true); (0, false)] [(0, false); (1, false); (2, false)] [(0, false); (1, false)];
+              Get a 1; Get b 1] in
+  hist_ok ops = true /\
+  run p init_state ops = [[]; []; []; [[]]; [[4; 5; 6]]].
+Proof. vm_compute. repeat split; reflexivity. Qed.
+
+(* finding 2.  NewTieredChunkCache(_, dir, 64, 8): "abcde" and "XYZ" stored under two
+   ids; GetChunkSlice("XYZ" id, 2^64-1, 2) panics when the memory tier has the entry
+   and returns the padding byte in front of the needle plus "X" otherwise; after a
+   restart GetChunkSlice(id, 2^64-4, 6) returns "e" 0 0 0 "XY" *)
+Definition w2_params : params := {| unit_size := 8; disk_units := 64 |}.
+Definition w2_ops : list op :=
+  [Store (Fid 3 1 1668298710) [97; 98; 99; 100; 101];
+   Store (Fid 3 2 1668298710) [88; 89; 90];
+   GetSlice (Fid 3 2 1668298710) 18446744073709551615 2;
+   Restart [(1, false); (0, false)] [(2, false); (1, false); (0, false)] [(1, false); (0, false)];
+   GetSlice (Fid 3 2 1668298710) 18446744073709551612 6].
+
+Lemma witness2_facts :
+  keys_unique w2_ops = true /\ hist_ok w2_ops = true /\
+  run w2_params init_state w2_ops = [[]; []; [[0; 88]; panic_mark]; []; [[101; 0; 0; 0; 88; 89]]] /\
+  transparent_from [] w2_ops (run w2_params init_state w2_ops) = false.
+Proof. vm_compute. repeat split; reflexivity. Qed.
